@@ -1050,9 +1050,134 @@ Qed.
 
 Lemma existsb_live c ws : existsb (fun w : Z * bool => (fst w =? c) && snd w) ws = true -> (1 <= cnt c (live ws))%nat.
 Proof.
-  induction ws as [|[x a] r IH]; cbn; [discriminate|]. intros H. apply orb_true_iff in H as [H|H].
-  - apply andb_true_iff in H as [H1 H2]. apply Z.eqb_eq in H1. subst. change (live ((c, true) :: r)) with (c :: live r).
-    unfold cnt. cbn. destruct (Z.eq_dec c c); [lia|congruence].
-  - specialize (IH H). destruct a; auto. change (live ((x, true) :: r)) with (x :: live r). unfold cnt in *. cbn.
-    destruct (Z.eq_dec x c); lia.
+  induction ws as [|[x a] r IH]; cbn [existsb fst snd]; [discriminate|]. intros H. apply orb_true_iff in H as [H|H].
+  - apply andb_true_iff in H as [H1 H2]. apply Z.eqb_eq in H1. subst. rewrite live_cons_true, cnt_cons.
+    destruct (Z.eq_dec c c); [lia|congruence].
+  - specialize (IH H). destruct a.
+    + rewrite live_cons_true, cnt_cons. destruct (Z.eq_dec x c); lia.
+    + rewrite live_cons_false. exact IH.
+Qed.
+
+Definition is_req (l : label) : bool := match l with Req => true | _ => false end.
+
+Lemma nterm_one c o : nterm c [o] = if is_term c o then 1%nat else 0%nat.
+Proof. unfold nterm. cbn. destruct (is_term c o); reflexivity. Qed.
+
+Lemma ocalls_cons_some s c l : ocalls ((s, Some c) :: l) = c :: ocalls l. Proof. reflexivity. Qed.
+Lemma ocalls_cons_none s l : ocalls ((s, None) :: l) = ocalls l. Proof. reflexivity. Qed.
+Lemma ocalls_nil : ocalls [] = []. Proof. reflexivity. Qed.
+Lemma live_nil : live [] = []. Proof. reflexivity. Qed.
+
+Ltac fin_calls :=
+  repeat rewrite ?map_app, ?cnt_app, ?nterm_app, ?live_app, ?ocalls_app, ?nterm_one, ?ocalls_cons_some,
+                 ?ocalls_cons_none, ?ocalls_nil, ?live_nil, ?live_cons_true, ?live_cons_false;
+  cbn [map snd fst app is_term];
+  repeat rewrite ?cnt_cons; unfold cnt in *; cbn [count_occ];
+  repeat match goal with
+         | |- context [Z.eq_dec ?a ?b] => destruct (Z.eq_dec a b)
+         | |- context [?a =? ?b] => destruct (Z.eqb_spec a b)
+         end; cbn [andb]; try lia; try congruence.
+
+Lemma step_calls cf st tr l st' ob :
+  Inv cf [] st tr -> step cf st l = (st', ob) ->
+  ncall st' = (if is_req l then ncall st + 1 else ncall st) /\
+  forall c, (cnt c (active st') + nterm c ob
+             <= cnt c (active st) + (if is_req l && Z.eqb c (ncall st) then 1 else 0))%nat.
+Proof.
+  intros I H. destruct l as [|s1|c1|c1|k|s1 v| |]; cbn [step] in H; cbn [is_req andb].
+  - set (c0 := ncall st) in *. set (st0 := set_ncall (c0 + 1) st) in *.
+    assert (I0 : Inv cf [] st0 tr).
+    { destruct I as [C [R1 R2 R3 R4 R5 R6]]. split.
+      - apply (core_same [] st tr); subst st0; sset; auto using incl_refl.
+      - subst st0. constructor; sset; auto. eapply Forall_impl; [|exact R5]. cbn. intros. subst c0. lia. }
+    destruct (get cf (Some c0) st0) as [[g st1] ob1] eqn:Eg.
+    destruct (get_inv _ _ _ _ _ _ _ Eg I0) as (Ew & En & _ & El & _ & G).
+    destruct (get_obs _ _ _ _ _ _ Eg) as (Go & _ & _).
+    assert (N0 : forall c, nterm c ob1 = 0%nat) by (intros; now apply nterm_get).
+    subst st0; sset.
+    destruct g as [s2| | |]; inversion H; subst st' ob; clear H; sset; (split; [lia|]); intros c; unfold active; sset.
+    + destruct G as (_ & Eo & _). rewrite El, Ew, Eo. sset. specialize (N0 c). fin_calls.
+    + destruct G as (_ & Eo). rewrite El, Ew, Eo. sset. specialize (N0 c). fin_calls.
+    + destruct G as (_ & Eo & _). rewrite El, Ew, Eo. sset. specialize (N0 c). fin_calls.
+    + destruct G as (_ & Eo & _). rewrite El, Ew, Eo. sset. specialize (N0 c). fin_calls.
+  - destruct (extract _ (opening st)) as [[[s' who] op']|] eqn:Ex.
+    2:{ inversion H; subst. split; auto; intros c; cbn; lia. }
+    destruct (extract_spec _ _ _ _ Ex) as (l1 & l2 & E1 & E2 & _ & _). destruct who as [c2|].
+    + inversion H; subst st' ob; clear H. sset. split; auto. intros c. unfold active; sset. rewrite E1, E2. fin_calls.
+    + destruct (release cf s1 (set_opening op' st)) as [st2 ob2] eqn:Er.
+      destruct (release_calls _ _ _ _ _ Er) as (El & Eo & En & Hc). sset.
+      unfold open_result in H. destruct (pstate st2 =? 4); inversion H; subst st' ob; clear H; sset;
+        (split; [auto|]); intros c; specialize (Hc c); unfold active; sset; rewrite El, Eo, E1, E2; fin_calls.
+  - destruct (extract _ (lent st)) as [[[s2 c'] le']|] eqn:Ex.
+    2:{ inversion H; subst. split; auto; intros c; cbn; lia. }
+    destruct (extract_spec _ _ _ _ Ex) as (l1 & l2 & E1 & E2 & Pc & _). cbn in Pc. apply Z.eqb_eq in Pc. subst c'.
+    destruct (release cf s2 (set_lent le' st)) as [st1 ob1] eqn:Er.
+    destruct (release_calls _ _ _ _ _ Er) as (El & Eo & En & Hc). sset.
+    inversion H; subst st' ob; clear H. split; auto. intros c. specialize (Hc c). unfold active. rewrite El, Eo, E1, E2.
+    fin_calls.
+  - destruct (existsb _ (waiters st)) eqn:Ee.
+    2:{ inversion H; subst. split; auto; intros c; cbn; lia. }
+    inversion H; subst st' ob; clear H. sset. split; auto. intros c. unfold active; sset.
+    pose proof (live_mark_dead c1 (waiters st) c) as Hm. pose proof (existsb_live _ _ Ee) as He.
+    rewrite !cnt_app, Hm, nterm_one. cbn [is_term]. destruct (Z.eq_dec c1 c); destruct (Z.eqb_spec c1 c); try congruence; try lia.
+    subst. lia.
+  - destruct (extract_nth k (pq st)) as [[s0 pq']|].
+    2:{ inversion H; subst. split; auto; intros c; cbn; lia. }
+    destruct (process_queue_calls _ _ _ _ _ H) as (Eo & En & Hc). sset. split; auto. intros c. specialize (Hc c).
+    unfold active. rewrite Eo, !cnt_app. sset. lia.
+  - inversion H; subst. sset. split; auto; intros c; cbn; unfold active; sset; lia.
+  - destruct (close_pool_fields _ _ _ H) as (_ & _ & El & Eo & _ & _ & _ & En & _). split; auto. intros c.
+    pose proof (close_pool_calls _ _ _ c H) as Hc. unfold active. rewrite El, Eo, !cnt_app. lia.
+  - destruct (get cf None st) as [[g st1] ob1] eqn:Eg.
+    destruct (get_inv _ _ _ _ _ _ _ Eg I) as (Ew & En & _ & El & _ & G).
+    destruct (get_obs _ _ _ _ _ _ Eg) as (Go & _ & _).
+    assert (N0 : forall c, nterm c ob1 = 0%nat) by (intros; now apply nterm_get).
+    destruct g as [s2| | |].
+    + destruct G as (_ & Eo & _). destruct (release cf s2 st1) as [st2 ob2] eqn:Er.
+      destruct (release_calls _ _ _ _ _ Er) as (El2 & Eo2 & En2 & Hc).
+      unfold open_result in H. destruct (pstate st2 =? 4); inversion H; subst st' ob; clear H; sset;
+        (split; [congruence|]); intros c; specialize (Hc c); specialize (N0 c); unfold active; sset;
+        rewrite ?El2, ?Eo2, ?El, ?Eo; rewrite Ew in Hc; fin_calls.
+    + destruct G as (_ & Eo). inversion H; subst st' ob; clear H. split; auto. intros c. specialize (N0 c).
+      unfold active. rewrite El, Ew, Eo. fin_calls.
+    + destruct G as (_ & Eo & _). unfold open_result in H.
+      destruct (pstate (release_noop st1) =? 4); inversion H; subst st' ob; clear H; sset;
+        (split; [auto|]); intros c; specialize (N0 c); unfold active; sset; rewrite El, Ew, Eo; fin_calls.
+    + destruct G as (_ & Eo & _). unfold open_result in H.
+      destruct (pstate (release_noop st1) =? 4); inversion H; subst st' ob; clear H; sset;
+        (split; [auto|]); intros c; specialize (N0 c); unfold active; sset; rewrite El, Ew, Eo; fin_calls.
+Qed.
+
+Lemma run_calls cf ls : forall st tr st' ob,
+  run cf st ls = (st', ob) -> Inv cf [] st tr ->
+  (forall c, (K c st tr <= 1)%nat) -> (forall c, ncall st <= c -> K c st tr = 0%nat) ->
+  (forall c, (K c st' (tr ++ ob) <= 1)%nat) /\ (forall c, ncall st' <= c -> K c st' (tr ++ ob) = 0%nat).
+Proof.
+  induction ls as [|l r IH]; intros st tr st' ob H I K1 K0; cbn in H.
+  - inversion H; subst. rewrite app_nil_r. auto.
+  - destruct (step cf st l) as [st1 ob1] eqn:E1. destruct (run cf st1 r) as [st2 ob2] eqn:E2.
+    inversion H; subst st' ob; clear H. rewrite app_assoc.
+    destruct (step_calls _ _ _ _ _ _ I E1) as [En Hc].
+    apply (IH _ _ _ _ E2 (step_inv _ _ _ _ _ _ E1 I)).
+    + intros c. specialize (Hc c). specialize (K1 c). specialize (K0 c). unfold K in *. rewrite nterm_app.
+      destruct (is_req l && (c =? ncall st)) eqn:Ei; [|lia].
+      apply andb_true_iff in Ei as [_ Ei]. apply Z.eqb_eq in Ei.
+      assert (nterm c tr = 0%nat /\ cnt c (active st) = 0%nat) as [Z1 Z2] by (specialize (K0 ltac:(lia)); lia). lia.
+    + intros c Hge. specialize (Hc c). unfold K in *. rewrite nterm_app.
+      assert (Hle : ncall st <= ncall st1) by (rewrite En; destruct (is_req l); lia).
+      specialize (K0 c ltac:(lia)).
+      destruct (is_req l && (c =? ncall st)) eqn:Ei; [|lia].
+      apply andb_true_iff in Ei as [Er Ei]. apply Z.eqb_eq in Ei. rewrite Er in En. lia.
+Qed.
+
+Lemma reach_calls cf ls st tr :
+  0 <= cmax cf -> reach cf ls = (st, tr) ->
+  (forall c, (nterm c tr + cnt c (active st) <= 1)%nat) /\
+  (forall c, ncall st <= c -> nterm c tr = 0%nat /\ ~ In c (active st)).
+Proof.
+  intros Hm H. destruct (run_calls cf ls init [] st tr H (init_inv cf Hm)) as [K1 K0].
+  - intros c. cbn. lia.
+  - intros c _. reflexivity.
+  - cbn [app] in *. split; [exact K1|]. intros c Hc. specialize (K0 c Hc). unfold K in K0. split; [lia|].
+    intros Hi. unfold cnt in K0. assert (count_occ Z.eq_dec (active st) c > 0)%nat by (now apply count_occ_In). lia.
 Qed.
